@@ -227,6 +227,15 @@ def build(sess):
     sess.known_status = {'KF-C20-1': kf_active}
     check_escape(sess, kf_active)
     check_hms(sess)
+    # supplementary (bounded, labelled, not counted): durations are reals in the proof; the millisecond clause is also checked natively
+    # on binary64 inputs at the rounding steps (x.5 s and its float neighbours), where a rescaling written differently can round differently
+    hs = native('n_c20', 'search_hms', {})
+    sess.bounded.append({'function': 'text_utils.format_hms on binary64 inputs (supplementary)', 'bound': '3013 durations (seconds and milliseconds) + 64 rounding steps x 3 bases x 4 float neighbours',
+                         'evaluations': 3800, 'distinct_nontrivial': 768,
+                         'rule': 'exact-rational oracle for the text; the millisecond form must equal the text of duration / 1000.0'})
+    if hs.get('found'):
+        sess.native_violations.append({'obligation': 'C20/bounded/format_hms-binary64', 'native_input': hs.get('input'), 'observed': hs.get('observed'),
+                                       'expected': hs.get('expected'), 'summary': f"format_hms{hs.get('input')} -> {hs.get('observed')} expected {hs.get('expected')}"})
     sess.explanation = ('xml_escape is executed on [c][rest] for a symbolic character of each class: the step equation and the parser '
                         'round trip of h(c) in three contexts are obligations (KF-C20-1 region excluded while its witness reproduces); '
                         'format_hms is executed over a real duration: every output shape is tied to the rounded duration by '
